@@ -90,11 +90,11 @@ static void vec_make_room(Ctx &c) {
 }
 
 static const char *const CHARSETS[] = {" \t\r\n", "x", "ab ", "0123456789", "\n", " .,;", "ABCDEFGHIJKLMNOPQRSTUVWXYZ"};
-// (the last two carry 300 and 1100 bytes of literal text: a format string longer than the in-object capacity of the stream behind ST::format)
+// (11 and 12 carry 300 and 1100 bytes of literal text - a format string longer than the in-object capacity of the stream behind ST::format; 13 pads to 1200)
 #define LIT100 "0123456789abcdefghijklmnopqrstuvwxyz-ABCDEFGHIJKLMNOPQRSTUVWXYZ_0123456789abcdefghijklmnopqrstuvwxyz+"
 #define LIT300 LIT100 LIT100 LIT100
 static const char *const FORMATS[] = {"{}", "{}{}", "[{}] and [{}]", "{>24}", "{<24}|{}", "{&2}{&1}", "{_*>20}", "{{{}}}", "{&1}{&1}{&2}", "{.3}", "{.40}x{<3}",
-                                      LIT300 "{}|{}", "{}" LIT300 LIT300 "{{" LIT300 LIT100 LIT100 "{>5}"};
+                                      LIT300 "{}|{}", "{}" LIT300 LIT300 "{{" LIT300 LIT100 LIT100 "{>5}", "{>1200}|{<300}"};
 
 typedef decltype(ST::literals::operator"" _stfmt("", 0)) StoredFmt;
 static const char *const SLOT_FORMATS[4] = {"{}-{}", "[{>12}] [{}]", "{&2}/{&1}/{}", "{.6}|{<4}"};
